@@ -124,6 +124,98 @@ def _duration_secs(du, op, facts, depth=0):
     return None
 
 
+ERR_PRESERVING = ("and_then", "map", "inspect_err", "map_err", "inspect", "and")      # Result combinators under which Err stays Err
+
+
+def _op_local(op):
+    pl = operand_place(op)
+    return pl["local"] if pl is not None else None
+
+
+def _err_closure(body, start):
+    """locals that are Err whenever a local of `start` is Err: moves / copies, the payload projections of a tainted value,
+    Err-preserving Result combinators, `Try::branch` (Break <=> Err) and `from_residual` of its payload"""
+    T = set(start)
+    changed = True
+    while changed:
+        changed = False
+        for blk in body.blocks:
+            if blk["cleanup"]:
+                continue
+            for s_ in blk["stmts"]:
+                if s_["k"] != "assign" or s_["place"]["proj"] or s_["place"]["local"] in T:
+                    continue
+                rv = s_["rv"]
+                src = None
+                if rv["k"] == "use":
+                    src = _op_local(rv["x"])
+                if src is not None and src in T:
+                    T.add(s_["place"]["local"])
+                    changed = True
+            t = blk["term"]
+            if t["k"] == "call" and not t["dest"]["proj"] and t["dest"]["local"] not in T and t["args"]:
+                nm = t["callee"].get("name")
+                p = t["callee"].get("path") or ""
+                a0 = _op_local(t["args"][0])
+                if a0 in T and ((nm in ERR_PRESERVING and "result::Result" in p) or (nm == "branch" and "Try" in p) or (nm == "from_residual")):
+                    T.add(t["dest"]["local"])
+                    changed = True
+    return T
+
+
+def _err_edges(body, T):
+    """(block, successor) edges taken when a tainted Result / ControlFlow value is Err / Break (discriminant 1)"""
+    out = []
+    for bi, blk in enumerate(body.blocks):
+        if blk["cleanup"]:
+            continue
+        dl = None
+        for s_ in blk["stmts"]:
+            if s_["k"] == "assign" and s_["rv"]["k"] == "discr" and not s_["rv"]["place"]["proj"] and s_["rv"]["place"]["local"] in T:
+                dl = s_["place"]["local"]
+        tt = blk["term"]
+        if dl is not None and tt["k"] == "switch" and operand_place(tt["discr"]) and operand_place(tt["discr"])["local"] == dl:
+            for v, b in tt["targets"]:
+                if int(v) == 1:
+                    out.append((bi, b))
+            if not any(int(v) == 1 for v, _ in tt["targets"]) and [int(v) for v, _ in tt["targets"]] == [0]:
+                out.append((bi, tt["otherwise"]))
+    return out
+
+
+def _wrapper_reports_failure(facts, w):
+    """`fn connect_once(..) -> io::Result<TcpStream>`: a failed TcpStream::connect comes back as Err. Every definition of the
+    return value either carries the connect result on (moves, Err-preserving combinators, `?`) or is an `Ok(..)` built where
+    the connect result is known to be Ok (not reachable from the Err / Break edge of a decision on it)."""
+    cs = _calls(w, lambda c: _path_is(c, "net::TcpStream::connect"))
+    if len(cs) != 1 or cs[0][1]["dest"]["proj"]:
+        return False
+    T = _err_closure(w, {cs[0][1]["dest"]["local"]})
+    cfg = CFG(w)
+    after_err = set()
+    for a, b in _err_edges(w, T):
+        after_err |= set(cfg.reachable_from(b)) | {b}
+    ok_defs = 0
+    for bi, blk in enumerate(w.blocks):
+        if blk["cleanup"] or bi not in cfg.reach:
+            continue
+        for s_ in blk["stmts"]:
+            if s_["k"] == "assign" and s_["place"]["local"] == 0 and not s_["place"]["proj"]:
+                rv = s_["rv"]
+                if rv["k"] == "use" and _op_local(rv["x"]) in T:
+                    continue
+                if rv["k"] == "agg" and rv.get("adt", "").endswith("result::Result") and rv.get("variant") == "Ok" and bi not in after_err:
+                    ok_defs += 1
+                    continue
+                if rv["k"] == "agg" and rv.get("adt", "").endswith("result::Result") and rv.get("variant") == "Err":
+                    continue
+                return False
+        t = blk["term"]
+        if t["k"] == "call" and t["dest"]["local"] == 0 and not t["dest"]["proj"] and 0 not in T:
+            return False
+    return 0 in T or ok_defs > 0
+
+
 def _path_is(c, *suffixes):
     p = c.get("path") or ""
     i = c.get("instance") or ""
@@ -148,6 +240,7 @@ def run(facts, rep, tier):
         ("R18.6", "thread::spawn has one call site"),
         ("R18.7", "a partial last line of a dropped connection is not carried into the next one"),
         ("R18.8", "no other mutable state of the connect function is carried from one connection into the next"),
+        ("R18.9", "the connection-handling code around the line reader has no panic site of its own"),
     ]:
         rep.rule(rid, txt, "P")
 
@@ -159,6 +252,24 @@ def run(facts, rep, tier):
     cfg = CFG(tcp)
     du = DefUse(tcp)
     connect_bb, connect_t = _calls(tcp, lambda c: _path_is(c, "net::TcpStream::connect"))[0]
+    wrapped = None
+    if not any(connect_bb in blks for blks in cfg.loops().values()):
+        # `loop { match connect_once(addr).and_then(|s| serve(s, ..)) { .. } }`: the connect call sits in a helper; the loop
+        # belongs to the (single) caller. The helper must hand a failed connect back as Err (R18.2 then follows that value).
+        cg0 = call_graph(facts)
+        owners = [b for b in facts.bodies.values() if b.kind == "fn" and any(tgt == tcp.name for _, _, tgt in cg0.get(b.name, []))]
+        if len(owners) == 1 and _wrapper_reports_failure(facts, tcp):
+            ocfg = CFG(owners[0])
+            sites = [(bb, t) for bb, t in owners[0].calls() if callee_name(t) == tcp.name and any(bb in blks for blks in ocfg.loops().values())]
+            if len(sites) == 1:
+                wrapped = tcp
+                tcp = owners[0]
+                cfg = ocfg
+                du = DefUse(tcp)
+                connect_bb, connect_t = sites[0]
+        if wrapped is None:
+            raise Broken("C18 anchor: TcpStream::connect is not in a loop of %s, and its caller is not a recognised connect loop" % tcp.name)
+    rep.extra["connect_loop"] = {"function": tcp.name, "connect_in": (wrapped or tcp).name}
 
     # R18.1
     rets = [bb for bb in cfg.reach if tcp.blocks[bb]["term"]["k"] == "return"]
@@ -188,22 +299,9 @@ def run(facts, rep, tier):
     if not inloop:
         rep.add(Finding("R18.1", "%s : connect not in a loop" % tcp.name, "TcpStream::connect is not retried in a loop", tcp.loc()))
 
-    # R18.2: Err edge of the connect result
+    # R18.2: Err edge of the connect result (or of what an Err-preserving chain makes of it)
     dest = connect_t["dest"]["local"]
-    err_edges = []
-    for bi in cfg.reach:
-        blk = tcp.blocks[bi]
-        dl = None
-        for s in blk["stmts"]:
-            if s["k"] == "assign" and s["rv"]["k"] == "discr" and s["rv"]["place"]["local"] == dest:
-                dl = s["place"]["local"]
-        tt = blk["term"]
-        if dl is not None and tt["k"] == "switch" and operand_place(tt["discr"]) and operand_place(tt["discr"])["local"] == dl:
-            for v, b in tt["targets"]:
-                if int(v) == 1:
-                    err_edges.append((bi, b))
-            if not any(int(v) == 1 for v, _ in tt["targets"]) and [int(v) for v, _ in tt["targets"]] == [0]:
-                err_edges.append((bi, tt["otherwise"]))
+    err_edges = _err_edges(tcp, _err_closure(tcp, {dest}))
     if not err_edges:
         raise Broken("C18 anchor: no Ok/Err decision on the connect result")
     sleeps = {}
@@ -237,10 +335,36 @@ def run(facts, rep, tier):
                 pl = operand_place(a)
                 if pl and tcp.locals[pl["local"]]["ty"]["s"].endswith("Planes") and tcp.locals[pl["local"]]["ty"]["k"] == "ref":
                     readers.append((bb, t, a))
+    # the reader may be called from a closure of the loop function (`.and_then(|stream| serve(stream, args, planes))`): the
+    # table it passes is a capture; the captured operand at the closure's creation is what must be the parameter
+    via_closure = {}
+    for bi_, blk_ in enumerate(tcp.blocks):
+        if blk_["cleanup"]:
+            continue
+        for s_ in blk_["stmts"]:
+            if s_["k"] == "assign" and s_["rv"]["k"] == "agg" and s_["rv"].get("agg") == "closure" and s_["rv"]["closure"] in facts.bodies:
+                cb_ = facts.bodies[s_["rv"]["closure"]]
+                cdu_ = DefUse(cb_)
+                for cbb, ct in cb_.calls():
+                    ctgt = callee_name(ct)
+                    if ctgt not in facts.bodies:
+                        continue
+                    for a in ct["args"]:
+                        pl = operand_place(a)
+                        if pl and cb_.locals[pl["local"]]["ty"]["s"].endswith("Planes") and cb_.locals[pl["local"]]["ty"]["k"] == "ref":
+                            cr = cdu_.root(a)
+                            cap = [p_ for p_ in (cr[2] if cr[0] == "arg" and cr[1] == 1 else []) if p_["k"] == "field" and "closure" in p_]
+                            if len(cap) == 1 and cap[0]["i"] < len(s_["rv"]["ops"]):
+                                # the block in the loop function where the closure is handed to its caller
+                                use_bb = [bb2 for bb2, t2 in tcp.calls() if any(_op_local(x) == s_["place"]["local"] for x in t2["args"])]
+                                via_closure[id(ct)] = use_bb[0] if use_bb else bi_
+                                readers.append((via_closure[id(ct)], ct, s_["rv"]["ops"][cap[0]["i"]]))
+                            else:
+                                readers.append((bi_, ct, None))
     if not readers:
         raise Broken("C18 anchor: the TCP function passes no &mut Planes to a line reader")
     for bb, t, a in readers:
-        r = du.root(a)
+        r = du.root(a) if a is not None else ("unknown",)
         ok = r[0] == "arg" and all(p["k"] in ("deref", "addr") for p in r[2])
         rep.oblige(ok, ("same-table", bb))
         rep.sample({"rule": "R18.3", "call": callee_name(t), "table_arg_root": "fn parameter %s" % r[1] if r[0] == "arg" else r[0]})
@@ -284,7 +408,11 @@ def run(facts, rep, tier):
     n = 0
     for bb, t, a in readers:
         n += 1
-        ok = t.get("target") is not None and connect_bb in cfg.reachable_from(t["target"])
+        if id(t) in via_closure:
+            tt_ = tcp.blocks[bb]["term"]
+            ok = tt_.get("target") is not None and connect_bb in cfg.reachable_from(tt_["target"])
+        else:
+            ok = t.get("target") is not None and connect_bb in cfg.reachable_from(t["target"])
         rep.oblige(ok, ("back-to-connect", bb))
         if not ok:
             rep.add(Finding("R18.4", "%s : no way back to connect after the reader" % tcp.name,
@@ -308,6 +436,30 @@ def run(facts, rep, tier):
         rep.instances("R18.7", n7, floor=1, what="line buffers of the reader loop (none = one fresh line per iteration)")
     except Broken:
         rep.instances("R18.7", 1, floor=0)
+    # R18.9: what happens between two connections - connecting, reporting how the last one ended, pausing - must not be able
+    # to panic: a panic there ends the connect loop just as a Return would (R18.1). The line reader's own callees are C01's
+    # and C13's business; here: the connect function, its helpers down to and including the function that owns the line loop.
+    from .c01 import panic_sites
+    try:
+        from ..effects import Effects as _Eff2
+        from ..region import Region as _Region2
+        _proc = _Region2(facts, _Eff2(facts)).proc.name
+    except Broken:
+        _proc = None
+    below = reachable_bodies(facts, [_proc], cg) - {_proc} if _proc else set()
+    n9 = 0
+    for nme in sorted(reach - below):
+        b9 = facts.bodies[nme]
+        if b9.kind == "promoted":
+            continue
+        n9 += 1
+        for t9, bad9, src9 in panic_sites(b9):
+            rep.oblige(bad9 is None, ("glue-panic", nme, bad9 or src9))
+            if bad9 is not None:
+                rep.add(Finding("R18.9", "%s : %s in the connection handling" % (nme, bad9),
+                                "%s runs between connections and contains a panic site (%s): a connection that ends in the state "
+                                "that trips it terminates the decoder instead of being retried" % (nme, bad9), span_loc(t9.get("span"))))
+    rep.instances("R18.9", n9, floor=1, what="bodies of the connection handling scanned for panic sites")
     # R18.8: apart from the table (and the options), nothing that is modified while the decoder runs is carried from one
     # connection into the next: a local of the connect function created before the loop, borrowed mutably inside it and
     # handed to the per-connection reader is state that survives the interruption (a clock, a session, a parser)
@@ -342,10 +494,16 @@ def run(facts, rep, tier):
             ds = du.whole_defs(l)
             return bool(ds) and all(d[1] not in lblks for d in ds)
 
+        handed = []
         for bi in sorted(lblks):
+            for s_ in tcp.blocks[bi]["stmts"]:
+                # what a closure created inside the loop captures is handed to the code of that closure
+                if s_["k"] == "assign" and s_["rv"]["k"] == "agg" and s_["rv"].get("agg") == "closure":
+                    handed.append((bi, {"k": "call", "callee": {"path": s_["rv"]["closure"], "instance": s_["rv"]["closure"]}, "args": s_["rv"]["ops"], "span": s_.get("span")}))
             t = tcp.blocks[bi]["term"]
-            if t["k"] != "call" or callee_name(t) not in facts.bodies:
-                continue
+            if t["k"] == "call" and callee_name(t) in facts.bodies:
+                handed.append((bi, t))
+        for bi, t in handed:
             for a in t["args"]:
                 l = base_local(a)
                 if l is None:
